@@ -343,5 +343,6 @@ func fmtPos(pp token.Position, n dataflow.GraphNode) string {
 	if n != nil && n.Graph() != nil && n.Graph().Parent != nil {
 		fn = n.Graph().Parent.Name()
 	}
-	return fmt.Sprintf("%s:%d:%d(%s)", filepath.Base(pp.Filename), pp.Line, pp.Column, fn)
+	kind := strings.TrimPrefix(fmt.Sprintf("%T", n), "*dataflow.")
+	return fmt.Sprintf("%s:%d:%d(%s){%s}", filepath.Base(pp.Filename), pp.Line, pp.Column, fn, kind)
 }
